@@ -29,6 +29,7 @@ RULE = ("Programs are rendered dataclasses with 1-3 int fields (required / defau
 ASSUMPTIONS = ["relative order of validators of a base class and of a subclass is not documented: compared per class; cases where a discard crosses classes are UNSPECIFIED",
                "validators only read int fields; user code raising anything else than ValidationError is not generated"]
 BUDGET = {"quick": 120, "thorough": 3000}
+FUZZ = {"quick": 0, "thorough": 0}  # decided by enumeration (no Hypothesis strategy to drive)
 SHARDS = {"quick": 8, "thorough": 16}
 MIN_NONTRIVIAL = {"quick": 3000, "thorough": 60000}
 TECHNIQUE = "bounded-exhaustive enumeration of validator programs x field statuses x outcomes + Hypothesis for larger programs, against a reference model of the documented rules"
